@@ -1181,3 +1181,146 @@ def c12_site_scan(ctx):
         obs.append({"name": "c12-site-scan/no-new-site-without-contract", "kind": "post", "verdict": "discharged",
                     "solver": "scan", "ms": 0.0, "carries": True, "lineno": 0, "note": note})
     return obs
+
+
+# ================================================================== dispatchers: location is passed through the filters
+# The per-linter suppression filters (`_should_ignore*`) and context predicates decide WHETHER a finding is kept
+# (C04 / C19 territory); they are trusted Bool-valued functions here. What is proved: a finding that is kept carries
+# exactly the location the collector recorded.
+FILTER = ("suppression / context filter: decides only whether the finding is kept (C04, C19); C12 needs no fact about it")
+PrintConfigT = Rec("PrintStatementConfig", allow_in_scripts=Bool)
+PrintRuleT = Rec("PrintStatementRule", cls=PL + "PrintStatementRule", _violation_builder=PSBuilderT)
+
+
+@contract(PL + "PrintStatementRule._should_ignore", props=["C12"], returns=Bool, assumed=FILTER,
+          types=dict(self=PrintRuleT, violation=ViolationT, context=CtxT))
+class PrintShouldIgnore:
+    def ensures(result):
+        return True
+
+
+@contract(PL + "PrintStatementRule._should_ignore_typescript", props=["C12"], returns=Bool, assumed=FILTER,
+          types=dict(self=PrintRuleT, violation=ViolationT, context=CtxT))
+class PrintShouldIgnoreTs:
+    def ensures(result):
+        return True
+
+
+@contract(PL + "PrintStatementRule._is_test_file", props=["C12"], returns=Bool, assumed=FILTER,
+          types=dict(self=PrintRuleT, file_path=Opt(PathT)))
+class PrintIsTestFile:
+    def ensures(result):
+        return True
+
+
+@contract(PP + "PythonPrintStatementAnalyzer.is_in_main_block", props=["C12"], returns=Bool, assumed=FILTER,
+          types=dict(self=PyPrintAnalyzerT, node=PyNode))
+class PrintIsInMainBlock:
+    def ensures(result):
+        return True
+
+
+@contract(PL + "PrintStatementRule._try_create_python_violation", props=["C12"], returns=Opt(ViolationT),
+          types=dict(self=PrintRuleT, node=PyNode, line_number=Int, context=CtxT, config=PrintConfigT,
+                     analyzer=PyPrintAnalyzerT))
+class PrintTryCreatePython:
+    def requires(self, node, line_number, context, config, analyzer):
+        return isinstance(node, ast.Call)
+
+    def ensures_kept_finding_is_at_the_call(self, node, line_number, context, result):
+        return implies(result is not None, at(result, path_or(context.file_path, ""), line_number, node.col_offset)
+                       and result.rule_id == self._violation_builder.rule_id)
+
+
+@contract(PL + "PrintStatementRule._try_create_typescript_violation", props=["C12"], returns=Opt(ViolationT),
+          types=dict(self=PrintRuleT, method_name=Str, line_number=Int, context=CtxT))
+class PrintTryCreateTypescript:
+    def ensures_kept_finding_is_at_the_call_line(self, method_name, line_number, context, result):
+        return implies(result is not None, at(result, path_or(context.file_path, ""), line_number, 0)
+                       and result.message == f"console.{method_name}() should be replaced with proper logging")
+
+
+# ================================================================== performance: node -> record (string-concat / regex in loop)
+PFP = L + "performance/python_analyzer.py::"
+PFT = L + "performance/typescript_analyzer.py::"
+PFR = L + "performance/regex_analyzer.py::"
+PyConcatT = Rec("StringConcatViolation", cls=PFP + "StringConcatViolation", variable_name=Str, line_number=Int, column=Int,
+                loop_type=Str)
+TsConcatT = Rec("TsStringConcatViolation", cls=PFT + "StringConcatViolation", variable_name=Str, line_number=Int, column=Int,
+                loop_type=Str)
+RegexLoopT = Rec("RegexInLoopViolation", cls=PFR + "RegexInLoopViolation", method_name=Str, line_number=Int, column=Int,
+                 loop_type=Str)
+pf_likely_string = uf("pf_is_likely_string_variable", [Str, PyNode], Bool)
+pf_regex_method = uf("pf_regex_method_name", [PyNode], Opt(Str))
+DECISION = "the rule's decision heuristic (which constructs are flagged: C19's documented-example half, not decided here)"
+
+
+@contract(PFP + "PythonStringConcatAnalyzer._is_likely_string_variable", props=["C12"], returns=Bool, assumed=DECISION,
+          types=dict(self=Rec("PythonStringConcatAnalyzer", cls=PFP + "PythonStringConcatAnalyzer"), var_name=Str, value=PyNode))
+class PFIsLikelyString:
+    def value(var_name, value):
+        return pf_likely_string(var_name, value)
+
+
+@contract(PFP + "PythonStringConcatAnalyzer._add_string_concat_violation", props=["C12", "C19"], modifies=["violations"],
+          types=dict(self=Rec("PythonStringConcatAnalyzer", cls=PFP + "PythonStringConcatAnalyzer"), node=PyNode,
+                     var_name=Str, loop_type=Str, violations=SeqOf(PyConcatT)))
+class PFAddStringConcat:
+    def requires(node, var_name, loop_type, violations):
+        return isinstance(node, ast.AugAssign)
+
+    def ensures_at_the_augmented_assignment_once(node, var_name, loop_type, violations, old):
+        return violations == old.violations + (
+            [mk(PyConcatT, variable_name=var_name, line_number=node.lineno, column=node.col_offset, loop_type=loop_type)]
+            if pf_likely_string(var_name, node.value) else [])
+
+
+@contract(PFT + "TypeScriptStringConcatAnalyzer._create_violation", props=["C12", "C19"], modifies=["violations"],
+          types=dict(self=Rec("TypeScriptStringConcatAnalyzer", cls=PFT + "TypeScriptStringConcatAnalyzer"), node=TSNode,
+                     var_name=Str, loop_type=Str, violations=SeqOf(TsConcatT)))
+class PFTsCreateViolation:
+    def requires(node, var_name, loop_type, violations):
+        return node is not None
+
+    def ensures_at_the_node_once(node, var_name, loop_type, violations, old):
+        # tree-sitter rows are 0-based: line = row + 1, column = start column
+        return violations == old.violations + [mk(TsConcatT, variable_name=var_name, line_number=node.start_point[0] + 1,
+                                                  column=node.start_point[1], loop_type=loop_type)]
+
+
+@contract(PFR + "PythonRegexInLoopAnalyzer._get_regex_method_name", props=["C12"], returns=Opt(Str), assumed=DECISION,
+          types=dict(self=Rec("PythonRegexInLoopAnalyzer", cls=PFR + "PythonRegexInLoopAnalyzer"), node=PyNode))
+class PFGetRegexMethodName:
+    def value(node):
+        return pf_regex_method(node)
+
+
+@contract(PFR + "PythonRegexInLoopAnalyzer._create_violation_if_regex_call", props=["C12", "C19"], returns=Opt(RegexLoopT),
+          types=dict(self=Rec("PythonRegexInLoopAnalyzer", cls=PFR + "PythonRegexInLoopAnalyzer"), node=PyNode, loop_type=Str))
+class PFCreateIfRegexCall:
+    def requires(node, loop_type):
+        return isinstance(node, ast.Call)
+
+    def ensures_at_the_call(node, loop_type, result):
+        return (result is not None) == bool(pf_regex_method(node)) and implies(
+            result is not None, result.line_number == node.lineno and result.column == node.col_offset
+            and result.method_name == pf_regex_method(node) and result.loop_type == loop_type)
+
+
+# ================================================================== CQS (Python): function node -> CQSPattern
+CQF = CQ + "function_analyzer.py::"
+CQSVisitorT = Rec("FunctionAnalyzer", cls=CQF + "FunctionAnalyzer", _class_stack=SeqOf(Str), _file_path=Str)
+
+
+@contract(CQF + "FunctionAnalyzer._build_pattern", props=["C12"], returns=CQSPatternT,
+          types=dict(self=CQSVisitorT, node=PyNode, is_async=Bool, inputs=SeqOf(InputOpT), outputs=SeqOf(OutputOpT)))
+class CQSBuildPattern:
+    def requires(self, node, is_async, inputs, outputs):
+        return isinstance(node, (ast.FunctionDef, ast.AsyncFunctionDef))
+
+    def ensures_at_the_def_it_names(self, node, result):
+        return result.line == node.lineno and result.column == node.col_offset and result.function_name == node.name \
+            and result.file_path == self._file_path
+
+    def ensures_class_context(self, node, result):
+        return result.class_name == (self._class_stack[len(self._class_stack) - 1] if len(self._class_stack) > 0 else None)
